@@ -45,6 +45,12 @@ CHECKS = {
         "technique": SMT + "; rational identities in the moduli, minors positivity in QF_NRA",
         "design_ref": "DESIGN.md section 5 (C11)",
     },
+    "C02": {
+        "text": "Bounded check with solver-decided certificates on the real K, C, M of Elastic / Thermal / Beam (all element types, Euler-Bernoulli and Timoshenko, 1-D/2-D/3-D): |K r(theta)| <= tol for ALL symbolic rigid-motion parameters (QF_LRA); K_ff - mu I (statically determinate supports removed), K + tau I and M - mu I positive definite for ALL vectors through an exact rational congruence W A W^T whose row-wise relaxation z3 refutes (a failed certificate yields the offending vector, replayed as an exact Rayleigh quotient); translational mass = rho*measure*thickness (exact rationals, and identities in symbolic rho, t on small meshes).",
+        "note": "Trusted: exact integer arithmetic of the congruence, z3, numpy only as a hint generator (Cholesky, eigenvector). Meshes and material instances are enumerated; mu = 1e-7 max diag is the threshold below which a mode counts as zero-energy. Known finding: TRI15 consistent mass singular (12 Gauss points for 15 nodes).",
+        "technique": "definiteness certificates decided by z3 (QF_LRA) over exact rational congruences; symbolic rigid-motion parameters",
+        "design_ref": "DESIGN.md section 5 (C02), section 3.3",
+    },
 }
 
 NOT_APPLICABLE = {
